@@ -442,12 +442,12 @@ func c20Time(x *mc.X) *mc.Outcome {
 	t0 := time.Date(2024, 3, 10, 12, 0, 0, 500, time.UTC)
 	mode := x.Choose(2, "mode")
 	ti := x.Choose(3, "test")
-	pz := x.Choose(3, "paramzone")
+	pz := x.Choose(4, "paramzone")
 	d := x.Choose(5, "delta")
-	sz := x.Choose(3, "subjzone")
+	sz := x.Choose(4, "subjzone")
 	// zone 2: values derived from time.Now() carry a monotonic clock reading and the Local location;
 	// the other side of the comparison is the same instant without it
-	if pz == 2 || sz == 2 {
+	if pz >= 2 || sz >= 2 {
 		t0 = c20Now
 	}
 	param := t0
@@ -456,6 +456,8 @@ func c20Time(x *mc.X) *mc.Outcome {
 		param = t0.In(plus2)
 	case 2:
 		param = c20Now
+	case 3:
+		param = c20Now.Round(0) // same Location, monotonic reading stripped
 	default:
 		param = t0.Round(0).UTC()
 	}
@@ -465,6 +467,8 @@ func c20Time(x *mc.X) *mc.Outcome {
 		subj = subj.In(plus2)
 	case 2:
 		// keeps the monotonic reading
+	case 3:
+		subj = subj.Round(0) // same Location, monotonic reading stripped
 	default:
 		subj = subj.Round(0).UTC()
 	}
